@@ -235,14 +235,21 @@ def gen_mdrv(verif, dst, repo):
     conn = rd("connection.rs")
     t, ln = slice_item(conn, r"^    pub fn max_datagram_size\(&self\)", "Connection::max_datagram_size")
     sliced[f"wtransport/src/connection.rs:{ln} Connection::max_datagram_size"] = len(t)
-    write_if_changed(os.path.join(gen_root, "max_datagram_size.rs"), "impl Connection {\n" + t + "\n}\n")
+    extra, names = with_local_fns(t, conn)
+    if names:
+        sliced["wtransport/src/connection.rs helper fns pulled in"] = sorted(names)
+    write_if_changed(os.path.join(gen_root, "max_datagram_size.rs"), extra + "impl Connection {\n" + t + "\n}\n")
 
     cfg = rd("config.rs")
     two = slice_all(cfg, r"^    pub fn max_idle_timeout\(", "max_idle_timeout", 2)
+    helper_seen = set()
     for (t, ln), name in zip(two, ["server", "client"]):
         sliced[f"wtransport/src/config.rs:{ln} max_idle_timeout ({name})"] = len(t)
+        extra, names = with_local_fns(t, cfg, helper_seen)   # a helper shared by both builders is emitted once
+        if names:
+            sliced["wtransport/src/config.rs helper fns pulled in"] = sorted(helper_seen)
         write_if_changed(os.path.join(gen_root, f"max_idle_timeout_{name}.rs"),
-                         "impl %sBuilder {\n" % name.capitalize() + t + "\n}\n")
+                         extra + "impl %sBuilder {\n" % name.capitalize() + t + "\n}\n")
 
     return {
         "rehosted": ["wtransport/src/driver/streams/connect.rs", "wtransport/src/driver/streams/settings.rs",
@@ -285,3 +292,88 @@ def gen_mx509(verif, dst, repo):
 
 
 GENERATORS["mx509"] = gen_mx509
+
+
+# ------------------------------------------------------------------------------------------------
+# helper: pull in file-level free functions a slice calls (realistic refactorings extract helpers)
+# ------------------------------------------------------------------------------------------------
+
+def with_local_fns(slice_text, file_text, seen=None):
+    """returns (extra_items_text, names): source of file-level `fn` items (indentation 0) of the same file that the
+    slice calls, transitively"""
+    seen = set() if seen is None else seen
+    extra = []
+    for name in sorted(set(re.findall(r"\b([a-z_][a-z0-9_]*)\s*(?:::<[^>]*>)?\(", slice_text))):
+        if name in seen:
+            continue
+        ms = list(re.finditer(r"^(?:pub(?:\([a-z]+\))? )?(?:const )?(?:async )?fn %s\b" % re.escape(name), file_text, re.M))
+        if len(ms) != 1:
+            continue
+        seen.add(name)
+        t, _ = slice_item(file_text, r"^(?:pub(?:\([a-z]+\))? )?(?:const )?(?:async )?fn %s\b" % re.escape(name), name)
+        sub, _ = with_local_fns(t, file_text, seen)
+        extra.append(sub + t)
+    return ("\n\n".join(e for e in extra if e) + ("\n\n" if extra else "")), seen
+
+
+# ------------------------------------------------------------------------------------------------
+# mquic: QuicSendStream / QuicRecvStream method slices (C06)
+# ------------------------------------------------------------------------------------------------
+
+def slice_method(impl_text, name, what):
+    return slice_item(impl_text, r"^    pub (?:async )?fn %s\(" % name, what)[0]
+
+
+def gen_mquic(verif, dst, repo):
+    w = os.path.join(repo, "wtransport", "src")
+    gen_root = os.path.join(dst, "src", "gen")
+    sliced = {}
+    err = open(os.path.join(w, "error.rs")).read()
+    items = []
+    for rx, what in [(r"^pub enum StreamWriteError \{", "StreamWriteError"), (r"^pub enum StreamReadError \{", "StreamReadError"),
+                     (r"^pub enum StreamReadExactError \{", "StreamReadExactError"), (r"^pub struct ClosedStream;", None)]:
+        if what is None:
+            m = re.findall(r"(?:^#\[[^\n]*\]\n)*^pub struct ClosedStream;", err, re.M)
+            if len(m) != 1:
+                raise GenError("error.rs: expected exactly one `pub struct ClosedStream;`")
+            items.append(m[0])
+            sliced["wtransport/src/error.rs ClosedStream"] = len(m[0])
+        else:
+            t, ln = slice_item(err, rx, what)
+            items.append(t)
+            sliced[f"wtransport/src/error.rs:{ln} {what}"] = len(t)
+    write_if_changed(os.path.join(gen_root, "error_items.rs"), "\n\n".join(items) + "\n")
+
+    utils = open(os.path.join(w, "driver", "utils.rs")).read()
+    us = []
+    for fn in ("varint_q2w", "varint_w2q"):
+        t, ln = slice_item(utils, r"^pub fn %s\(" % fn, fn)
+        us.append(t)
+        sliced[f"wtransport/src/driver/utils.rs:{ln} {fn}"] = len(t)
+    write_if_changed(os.path.join(gen_root, "utils_items.rs"), "\n\n".join(us) + "\n")
+
+    sm = open(os.path.join(w, "driver", "streams", "mod.rs")).read()
+    send_impl, ln_s = slice_item(sm, r"^impl QuicSendStream \{", "impl QuicSendStream")
+    recv_impl, ln_r = slice_item(sm, r"^impl QuicRecvStream \{", "impl QuicRecvStream")
+    out = "impl QuicSendStream {\n"
+    for fn in ("finish", "stopped", "reset"):
+        t = slice_method(send_impl, fn, "QuicSendStream::" + fn)
+        sliced[f"wtransport/src/driver/streams/mod.rs QuicSendStream::{fn}"] = len(t)
+        out += t + "\n\n"
+    out += "}\n\nimpl QuicRecvStream {\n"
+    for fn in ("read", "read_exact", "stop"):
+        t = slice_method(recv_impl, fn, "QuicRecvStream::" + fn)
+        sliced[f"wtransport/src/driver/streams/mod.rs QuicRecvStream::{fn}"] = len(t)
+        out += t + "\n\n"
+    out += "}\n\n"
+    for rx, what in [(r"^impl From<quinn::WriteError> for StreamWriteError \{", "From<quinn::WriteError>"),
+                     (r"^impl From<quinn::ReadError> for StreamReadError \{", "From<quinn::ReadError>")]:
+        t, ln = slice_item(sm, rx, what)
+        sliced[f"wtransport/src/driver/streams/mod.rs:{ln} {what}"] = len(t)
+        out += t + "\n\n"
+    write_if_changed(os.path.join(gen_root, "stream_items.rs"), out)
+    return {"sliced": sliced,
+            "models": ["ModelSendStream / ModelRecvStream (results of quinn's finish/stopped/reset/read/read_exact/stop chosen by the harness)"]}
+
+
+GENERATORS["mquic"] = gen_mquic
